@@ -8,15 +8,14 @@
    while-form), nested to any depth, for every meaning of the statements and
    tests and every state: whenever the function returns or raises, interpreting
    the graph the front-end model builds block by block returns or raises the same
-   way in the same state.  The graph is the UNPRUNED one; that pruning keeps the
-   meaning is covered by the census theorems above only as far as instructions
-   go.  NOT proved: operands of and/or (known finding K2), that the desugared
+   way in the same state — and so does the graph after the three pruning passes
+   (SrcPrune.v), started at the entry pruning leaves.  NOT proved: operands of and/or (known finding K2), that the desugared
    for-loop equals Python's for (known finding K3), diverging runs.  Those, and
    the tie of the model to the code, are decided by the correspondence check and
    by path-exhaustive differential execution (see the evidence file). *)
-From Coq Require Import List ZArith.
+From Coq Require Import List ZArith Lia.
 Import ListNotations.
-From V Require Import Valid.Hier Model.Graph Model.Prune Model.Src Model.SrcProof Model.SrcIdx.
+From V Require Import Valid.Hier Model.Graph Model.Prune Model.Src Model.SrcProof Model.SrcIdx Model.SrcPrune.
 
 Theorem C08_prune_unreachable :
   forall g entry g', prune_unreachable g entry = Some g' ->
@@ -68,6 +67,21 @@ Proof.
 Qed.
 Print Assumptions C08_graph_means_source.
 
+(* the same for the graph after prune_unreachable, prune_noops and prune_empty *)
+Theorem C08_pruned_graph_means_source :
+  forall (state : Type) (act : Z -> state -> option state) (test : Z -> state -> option (bool * state))
+         (body : stmts) (fuel : nat) (s : state) (o : outcome state) (G' : list blk) (e' : Z),
+    exec state act test fuel body s = o ->
+    (exists a s', o = ORet a s') \/ (exists a, o = ORaise a) ->
+    sprune (build body) 0 = Some (G', e') ->
+    exists fuel', run state act test G' fuel' e' s = o.
+Proof.
+  intros state act test body fuel s o G' e' He Ho Hp.
+  destruct (C08_graph_means_source state act test body fuel s o He Ho) as [f1 H1].
+  exact (prune_keeps_meaning state act test (build body) 0 G' e' (build_tests_last body) Hp f1 s o H1 Ho).
+Qed.
+Print Assumptions C08_pruned_graph_means_source.
+
 (* non-vacuity: a state that records every statement and test executed, tests answered
    from a decision list;   while c1: (if c2: break else: a3); a4   else: a5;   return r6 *)
 Definition tstate := (list Z * list bool)%type.
@@ -82,5 +96,10 @@ Example C08_skeleton_example :
   exec tstate tact ttest 20 prog1 ([], [true; false; true; true]) = ORet 6 ([6; 2; 1; 4; 3; 2; 1], []) /\
   run tstate tact ttest (build prog1) 20 0 ([], [true; false; true; true]) = ORet 6 ([6; 2; 1; 4; 3; 2; 1], []) /\
   exec tstate tact ttest 20 prog1 ([], [true; false; false]) = ORet 6 ([6; 5; 1; 4; 3; 2; 1], []) /\
-  run tstate tact ttest (build prog1) 20 0 ([], [true; false; false]) = ORet 6 ([6; 5; 1; 4; 3; 2; 1], []).
-Proof. vm_compute. repeat split. Qed.
+  run tstate tact ttest (build prog1) 20 0 ([], [true; false; false]) = ORet 6 ([6; 5; 1; 4; 3; 2; 1], []) /\
+  match sprune (build prog1) 0 with
+  | Some (G', e') => run tstate tact ttest G' 20 e' ([], [true; false; false]) = ORet 6 ([6; 5; 1; 4; 3; 2; 1], [])
+                     /\ (length G' < length (build prog1))%nat
+  | None => False
+  end.
+Proof. vm_compute. repeat split; lia. Qed.
